@@ -134,6 +134,24 @@ func (r *callRes) verify(kind string, dotu bool, tagOf func(fid uint32) uint16) 
 	return ""
 }
 
+type keptRes struct {
+	i   int
+	r   *callRes
+	was string
+}
+
+// resultString renders everything the call handed to its caller (through the values
+// themselves: an error is read through the pointer the caller holds).
+func (r *callRes) resultString() string {
+	es := "<nil>"
+	if e, ok := r.err.(*go9p.Error); ok && e != nil {
+		es = fmt.Sprintf("&Error{%q, %d}", e.Err, e.Errornum)
+	} else if r.err != nil {
+		es = r.err.Error()
+	}
+	return fmt.Sprintf("err=%s name=%q qids=%v n=%d", es, r.name, r.qids, r.n)
+}
+
 type c09Params struct {
 	Calls    [][]callSpec // per caller
 	Kinds    []string     // reply kind by arrival index (missing = ok)
@@ -518,6 +536,7 @@ func c09RecycleScenario(n int, poolForgets bool, kind string) Scenario {
 				}
 				return 0
 			}
+			var kept []keptRes
 			for i := 0; i < n; i++ {
 				done = i
 				sp := callSpec{Kind: []string{"read", "stat", "write", "walk", "clunk"}[i%5], Fid: uint32(i % 50000)}
@@ -525,6 +544,18 @@ func c09RecycleScenario(n int, poolForgets bool, kind string) Scenario {
 				if msg := r.verify(kind, true, tagOf); msg != "" {
 					bad = fmt.Sprintf("call %d (%s fid %d): %s", i, sp.Kind, sp.Fid, msg)
 					return
+				}
+				// what an earlier call returned stays what it was (the caller may keep it)
+				for k, pr := range kept {
+					if now := pr.r.resultString(); now != pr.was {
+						bad = fmt.Sprintf("the result of call %d (%s fid %d) was %s when it returned and reads %s after %d later calls on the same client", pr.i, pr.r.spec.Kind, pr.r.spec.Fid, pr.was, now, i-pr.i)
+						return
+					}
+					_ = k
+				}
+				kept = append(kept, keptRes{i, r, r.resultString()})
+				if len(kept) > 3 {
+					kept = kept[1:]
 				}
 				if len(peer.Seen) > 64 {
 					for _, m := range peer.Seen {
